@@ -16,6 +16,11 @@ def scratch_root():
     """A fresh private scratch directory (removed at interpreter exit of the
     process that created it)."""
     global _scratch
+    inherited = os.environ.get('VSIM_SCRATCH_ROOT')
+    if inherited and os.path.isdir(inherited):
+        # created by the parent check process, which also removes it
+        _scratch = inherited
+        return _scratch
     if _scratch is None or not os.path.isdir(_scratch):
         base = os.environ.get('VSIM_SCRATCH_BASE')
         if not base:
@@ -27,6 +32,7 @@ def scratch_root():
             if os.getpid() == pid:
                 shutil.rmtree(path, ignore_errors=True)
         atexit.register(_cleanup)
+        os.environ['VSIM_SCRATCH_ROOT'] = _scratch
     return _scratch
 
 
